@@ -6,14 +6,17 @@ protocol code is verified only against the interface.
 from pyvc.contracts import cls, fn
 
 # hypercorn.typing.Event: a flag with wait().  `flag` is the abstract view.
-cls("hypercorn.typing:Event", fields={"flag": "bool"}, interface=True)
+# g_sticky: an event that is never cleared (context.terminate / terminated)
+cls("hypercorn.typing:Event", fields={"flag": "bool"}, ghost={"g_sticky": "bool"}, interface=True,
+    rely=[("Event.rely.sticky", "implies(old(self.g_sticky), self.g_sticky and implies(old(self.flag), self.flag))", "C07,C15")])
 fn("hypercorn.typing:Event.set", params={}, modifies=["self.flag"], ensures=[("Event.set.post", "self.flag")],
    effect="atomic", assume_only=True, trusted_reason="interface; refined by both EventWrapper classes (C16)")
-fn("hypercorn.typing:Event.clear", params={}, modifies=["self.flag"], ensures=[("Event.clear.post", "not self.flag")],
+fn("hypercorn.typing:Event.clear", params={}, modifies=["self.flag"], requires=[("Event.clear.pre.not-sticky", "not self.g_sticky")], ensures=[("Event.clear.post", "not self.flag")],
    effect="atomic", assume_only=True, trusted_reason="interface; refined by both EventWrapper classes (C16)")
 fn("hypercorn.typing:Event.is_set", params={}, modifies=[], returns="bool", ensures=[("Event.is_set.post", "result == self.flag")],
    effect="atomic", assume_only=True, trusted_reason="interface; refined by both EventWrapper classes (C16)")
 # wait() returns only after the flag has been set at some point during the wait; by the time the
 # waiter runs again the flag may have been cleared again, so nothing is promised about it.
 fn("hypercorn.typing:Event.wait", params={}, modifies=[], effect="yields", assume_only=True,
+   ensures=[("Event.wait.sticky", "implies(self.g_sticky, self.flag)")],
    trusted_reason="interface; refined by both EventWrapper classes (C16)")
